@@ -49,6 +49,7 @@ def run(ck):
     ck.run_rule(m3_reader_writer, ctx)
     ck.run_rule(m1_m2_literals, ctx)
     ck.run_rule(leaper_tables, ctx)
+    ck.run_rule(m9_lookups_are_pure)
 
 
 # ------------------------------------------------------------------------------------------------
@@ -745,3 +746,13 @@ def leaper_tables(ck, ctx):
         by_blanket = conv.endswith("for weechess_core::board::Offset>::from") and a[1] == ("call", "<T as core::convert::Into<U>>::into", (("param", 2),))
         good = (a[1] == ("call", conv, (("param", 2),)) or by_blanket) and cfg.in_cycle(ray, offc[0][0])
     ck.req(good, "M7.ray_walk", "compute_ray", ray.where(), "compute_ray does not repeatedly step by direction.into()")
+
+
+
+def m9_lookups_are_pure(ck):
+    """An attack lookup is a function of (piece, square, occupancy): the dispatch and the per-kind lookups keep no memory between calls
+    (a per-thread cache keyed by less than all three answers a later query with an earlier one's set)."""
+    from .common import no_hidden_state
+    roots = [n for n in ck.prog.bodies if n.startswith(A + "AttackGenerator::compute")]
+    n = no_hidden_state(ck, roots, "M9", "the attack lookup")
+    ck.floor("M9", n, 5, "workspace functions reachable from the AttackGenerator lookups")
